@@ -260,9 +260,18 @@ func replayTrace(tr *core.Trace) (*RunReport, int) {
 	return rep, cmd.ProcessState.ExitCode()
 }
 
+// sigClass is the part of a signature before the first ':' (the rest are transaction labels, which
+// minimisation is expected to reduce).
+func sigClass(s string) string {
+	if i := strings.Index(s, ":"); i >= 0 {
+		return s[:i]
+	}
+	return s
+}
+
 func sameViolation(rep *RunReport, want core.Violation) bool {
 	for _, v := range rep.Violations {
-		if v.Property == want.Property && v.Oracle == want.Oracle && v.Sig == want.Sig {
+		if v.Property == want.Property && v.Oracle == want.Oracle && sigClass(v.Sig) == sigClass(want.Sig) {
 			return true
 		}
 	}
@@ -342,6 +351,7 @@ func minimise(tr *core.Trace, want core.Violation, maxReplays int, maxWall time.
 		}
 		c := cloneTrace(best)
 		c.Steps[si].Txs = nil
+		c.Steps[si].Labels = nil
 		dropDeliverActs(c.Steps[si], -1)
 		if try(c) {
 			best = c
@@ -350,6 +360,9 @@ func minimise(tr *core.Trace, want core.Violation, maxReplays int, maxWall time.
 		for ti := 0; ti < len(best.Steps[si].Txs); {
 			c := cloneTrace(best)
 			c.Steps[si].Txs = append(c.Steps[si].Txs[:ti], c.Steps[si].Txs[ti+1:]...)
+			if ti < len(c.Steps[si].Labels) {
+				c.Steps[si].Labels = append(c.Steps[si].Labels[:ti], c.Steps[si].Labels[ti+1:]...)
+			}
 			dropDeliverActs(c.Steps[si], ti)
 			if try(c) {
 				best = c
@@ -525,25 +538,50 @@ func CheckMain(prop, tier string) int {
 			samples = append(samples, sampleOf(r))
 		}
 	}
-	for _, s := range sr.deaths {
+	for i, s := range sr.deaths {
 		foreign["worker process died"]++
-		_ = s
+		if i < 4 {
+			fmt.Printf("note: worker process died while running seed %d (run it alone: echo %d | OLSIM_DEBUG=1 olsim worker %s %s)\n", s, s, prop, tier)
+		}
 	}
 
 	known := loadKnown(dir)
-	isKnown := func(v core.Violation) *knownFinding {
+	findKnown := func(property, sig string) *knownFinding {
 		for i := range known.Findings {
 			k := &known.Findings[i]
-			if k.Property == v.Property && k.Signature == v.Oracle+"/"+v.Sig && k.Status == "open" {
+			if k.Property == property && k.Signature == sig && k.Status == "open" {
 				return k
 			}
 		}
 		return nil
 	}
+	// A signature is "<oracle>/<class>" or "<oracle>/<class>:<label>+<label>...". A violation whose
+	// labels are each individually listed for the same oracle and class is explained by known findings.
+	isKnown := func(v core.Violation) []*knownFinding {
+		full := v.Oracle + "/" + v.Sig
+		if k := findKnown(v.Property, full); k != nil {
+			return []*knownFinding{k}
+		}
+		i := strings.Index(v.Sig, ":")
+		if i < 0 {
+			return nil
+		}
+		class, labels := v.Sig[:i], strings.Split(v.Sig[i+1:], "+")
+		var out []*knownFinding
+		for _, l := range labels {
+			k := findKnown(v.Property, v.Oracle+"/"+class+":"+l)
+			if k == nil {
+				return nil
+			}
+			out = append(out, k)
+		}
+		return out
+	}
 
 	exit := 0
 	nviol := 0
 	knownMatched := map[string]int{}
+	reported := map[string]bool{}
 	os.MkdirAll(filepath.Join(dir, "replays"), 0755)
 	for _, key := range sigOrder {
 		r := bySig[key]
@@ -558,9 +596,13 @@ func CheckMain(prop, tier string) int {
 			foreign["violation of "+v.Property+": "+v.Sig]++
 			continue
 		}
-		if k := isKnown(v); k != nil {
-			knownMatched[k.Signature]++
-			fmt.Printf("KNOWN-FINDING: property=%s %s\n", prop, k.WhatFails)
+		if ks := isKnown(v); ks != nil {
+			for _, k := range ks {
+				if knownMatched[k.Signature] == 0 {
+					fmt.Printf("KNOWN-FINDING: property=%s %s\n", prop, k.WhatFails)
+				}
+				knownMatched[k.Signature]++
+			}
 			continue
 		}
 		// confirm + minimise in fresh processes
@@ -604,11 +646,25 @@ func CheckMain(prop, tier string) int {
 			repM = rep0
 		}
 		for _, vv := range repM.Violations {
-			if vv.Property == v.Property && vv.Oracle == v.Oracle && vv.Sig == v.Sig {
+			if vv.Property == v.Property && vv.Oracle == v.Oracle && sigClass(vv.Sig) == sigClass(v.Sig) {
 				v = vv
 				break
 			}
 		}
+		// the minimised form may turn out to be a listed finding
+		if ks := isKnown(v); ks != nil {
+			for _, k := range ks {
+				if knownMatched[k.Signature] == 0 {
+					fmt.Printf("KNOWN-FINDING: property=%s %s\n", prop, k.WhatFails)
+				}
+				knownMatched[k.Signature]++
+			}
+			continue
+		}
+		if reported[v.Oracle+"/"+v.Sig] {
+			continue // same minimal violation already reported from another seed
+		}
+		reported[v.Oracle+"/"+v.Sig] = true
 		min.Violation = &v
 		path := filepath.Join(dir, "replays", fmt.Sprintf("%s-%d-%s.json", prop, r.Seed, sanitize(v.Sig)))
 		tb, _ := json.MarshalIndent(min, "", " ")
